@@ -14,7 +14,7 @@ func init() {
 	register(&Property{
 		ID:      "C17",
 		NeedSSA: true,
-		Decided: "Structural necessary conditions for history independence: (reset) for the writer, row-group writer, column writers, buffers, column buffers, dictionaries and indexers, every access path that an operation writes on a reused (non-fresh) instance is written by a function reachable from the instance's reset, or is exempt for a recorded reason; a whole-struct overwrite by an operation counts as a write of every field it destroys; (own) storage that reset clears in place (footer structs of finished row groups) is never shared with live state: values published into it are freshly allocated or moved from the same path, and shallow struct copies are followed by fresh re-assignment; (scratch) accumulate-then-flush scratch slices that no reset clears are truncated on every exit of the function that grows them; (nondet) no function of the module outside a frozen allow-list calls time/rand/environment/CPU-count sources; (maps) every range over a map whose results can reach output is followed by a sort. (nested) state of an embedded specified type that an operation of the owner writes through a field path is re-established by the owner's reset reaching the inner reset through that path, or by the operation calling the inner reset itself; (own, cont.) after a shallow copy, re-assignments that append to what the field holds after the copy do not count as giving it storage of its own; (regrow) the buffers that later code accumulates into instead of overwriting — the null bitmap handed to the null-index kernels, the bloom filter bits handed to the split-block encoder (both resolved by that role), and every parameter a function both regrows and ORs into — are zeroed (clear(), a zeroing loop, or a module function doing either) after every `x = x[:n]` that regrows them inside retained capacity, on every path to a return. (cacheguard) a function that memoises in a package-level sync.Map looks the memo up under every condition (already decided at the lookup) under which it fills it. (regrow, cont.) the same holds for slice fields with pointer-carrying elements of objects kept in a memory.Pool, and for regrowth through slices.Grow(x, n)[:m]; `defer clear(x)` counts as zeroing.",
+		Decided: "Structural necessary conditions for history independence: (reset) for the writer, row-group writer, column writers, buffers, column buffers, dictionaries and indexers, every access path that an operation writes on a reused (non-fresh) instance is written by a function reachable from the instance's reset, or is exempt for a recorded reason; a whole-struct overwrite by an operation counts as a write of every field it destroys; (own) storage that reset clears in place (footer structs of finished row groups) is never shared with live state: values published into it are freshly allocated or moved from the same path, and shallow struct copies are followed by fresh re-assignment; (scratch) accumulate-then-flush scratch slices that no reset clears are truncated on every exit of the function that grows them; (nondet) no function of the module outside a frozen allow-list calls time/rand/environment/CPU-count sources; (maps) every range over a map whose results can reach output is followed by a sort. (nested) state of an embedded specified type that an operation of the owner writes through a field path is re-established by the owner's reset reaching the inner reset through that path, or by the operation calling the inner reset itself; (own, cont.) after a shallow copy, re-assignments that append to what the field holds after the copy do not count as giving it storage of its own; (regrow) the buffers that later code accumulates into instead of overwriting — the null bitmap handed to the null-index kernels, the bloom filter bits handed to the split-block encoder (both resolved by that role), and every parameter a function both regrows and ORs into — are zeroed (clear(), a zeroing loop, or a module function doing either) after every `x = x[:n]` that regrows them inside retained capacity, on every path to a return. (cacheguard) a function that memoises in a package-level sync.Map looks the memo up under every condition (already decided at the lookup) under which it fills it. (regrow, cont.) the same holds for slice fields with pointer-carrying elements of objects kept in a memory.Pool, and for regrowth through slices.Grow(x, n)[:m]; `defer clear(x)` counts as zeroing. (pairedreset) a function that both runs the duplicate-dropping helper over a self-contained batch and resets it reaches the reset — called, or deferred — on every path from the operation to a return, failing returns included. (freshlen) a slice variable defined both by a make and by a load of a record field that the record's Reset truncates to length zero is made with length 0.",
 		NotDecided: "byte equality itself; equality of the portable and accelerated kernels (assembly is not analysed); values carried in memory that is retained on purpose (capacity of truncated slices); state reachable only through interface-typed fields is checked per concrete type, not per instance.",
 		Assumptions: []string{
 			"effects are computed over static calls; dynamic calls (interface methods, function values) are not followed, concrete implementations are specified separately",
@@ -229,6 +229,8 @@ func runC17(c *Ctx) {
 	c.Min("C17.scratch", 3)
 
 	c17Regrow(c)
+	runPairedResetRule(c, "C17.pairedreset", ".deduplicate", ".reset", 1)
+	runFreshLenRule(c, "C17.freshlen", 0)
 	runCacheGuardRule(c, "C17.cacheguard", 1)
 	c17Nondet(c)
 	c17Maps(c)
